@@ -109,6 +109,9 @@ func NewPaillierGroup(p, q *num.NatPlus) (*PaillierGroupKnownOrder, error) {
 // Π^{mod} proof or equivalent). This is the view every party holds about a
 // counterparty's Paillier public key.
 func NewPaillierGroupOfUnknownOrder(n2, n *num.NatPlus) (*PaillierGroupUnknownOrder, error) {
+	if n2 == nil || n == nil {
+		return nil, ErrValue.WithMessage("n2 and n must not be nil")
+	}
 	if !n.Mul(n).Equal(n2) {
 		return nil, ErrValue.WithMessage("n isn't sqrt of n")
 	}
